@@ -79,6 +79,7 @@ def rename_maps(model):
         "swap": [{m_a: m_b, m_b: m_a}],
         "kinematic variable": [{kin: "theta_renamed"}],
         "stable mass parameter": [{mass_par: "mass_renamed"}],
+        "four-momentum symbols": [{"p0": "q0", "p1": "q1", "p2": "q2", "p3": "q3"}],
         "unknown name": [{"no_such_symbol": "x"}],
         "empty": [{}],
         "two successive": [{m_a: "M_tmp"}, {"M_tmp": "M_final", c_a: "C_final"}],
@@ -115,11 +116,33 @@ def run(config, tier, seed):
         sigma = cur
     out = []
 
+    # structural reference: every attribute with the simultaneous symbol map applied (xreplace), successively per rename
+    ref = {"intensity": model.intensity, "amplitudes": dict(model.amplitudes), "components": dict(model.components),
+           "kinematic_variables": dict(model.kinematic_variables), "parameter_defaults": dict(model.parameter_defaults)}  # fmt: skip
+    for r in renames:
+        syms = set(ref["intensity"].free_symbols) | set(ref["kinematic_variables"]) | {p for p in ref["parameter_defaults"] if isinstance(p, sp.Symbol)}
+        for group in ("amplitudes", "components", "kinematic_variables"):
+            for e_ in ref[group].values():
+                syms |= e_.free_symbols
+        smap = {s_: sp.Symbol(r[s_.name], **s_.assumptions0) for s_ in syms if getattr(s_, "name", None) in r}
+        ref = {"intensity": ref["intensity"].xreplace(smap), "amplitudes": {k: v.xreplace(smap) for k, v in ref["amplitudes"].items()},
+               "components": {k: v.xreplace(smap) for k, v in ref["components"].items()},
+               "kinematic_variables": {smap.get(k, k): v.xreplace(smap) for k, v in ref["kinematic_variables"].items()},
+               "parameter_defaults": {smap.get(k, k): v for k, v in ref["parameter_defaults"].items()}}  # fmt: skip
+
     def grd(name, ok, **info):
         out.append(Result(name=name, kind="ground", status="ok" if ok else "fail", config=config["name"], replay={"reproduced": not ok, **{k: str(v)[:300] for k, v in info.items()}}))
 
     after = {a: sp.srepr(getattr(model, a)) if a == "intensity" else repr(sorted(map(str, getattr(model, a).items()))) for a in before}
     grd("original model unchanged", before == after)
+    for attr in ("intensity", "amplitudes", "components", "kinematic_variables"):
+        got_, want_ = getattr(new, attr), ref[attr]
+        if attr == "intensity":
+            diff_ = [] if got_ == want_ else ["intensity"]
+        else:
+            diff_ = sorted(str(k)[:60] for k in set(got_) | set(want_) if k not in got_ or k not in want_ or got_[k] != want_[k])
+        grd(f"structure: {attr} == original with the symbol map applied simultaneously", not diff_, differing=diff_[:6],
+            example_got=str(got_ if attr == "intensity" else got_.get(next(iter(got_)) if not diff_ else next((k for k in got_ if str(k)[:60] == diff_[0]), None)))[:200])
     all_old = model.expression.free_symbols | set(model.kinematic_variables) | set(model.parameter_defaults)
     for kv in model.kinematic_variables.values():
         all_old |= {s_ for s_ in kv.free_symbols if isinstance(s_, sp.Symbol)}
@@ -135,11 +158,12 @@ def run(config, tier, seed):
     free = {s_ for s_ in new.expression.free_symbols if isinstance(s_, sp.Symbol)}
     undefined = sorted(str(s_) for s_ in free if (s_ in new.parameter_defaults) == (s_ in new.kinematic_variables))
     grd("closure: every free symbol is a parameter xor a kinematic variable", not undefined, symbols=undefined)
+    import re
+
+    momenta = {sigma.get(s_.name, s_.name) for kv in model.kinematic_variables.values() for s_ in kv.free_symbols if re.fullmatch(r"p\d+", getattr(s_, "name", ""))}
     kin_free = set()
     for kv in new.kinematic_variables.values():
-        import re
-
-        kin_free |= {s_ for s_ in kv.free_symbols if isinstance(s_, sp.Symbol) and not re.fullmatch(r"p\d+", s_.name)}
+        kin_free |= {s_ for s_ in kv.free_symbols if isinstance(s_, sp.Symbol) and s_.name not in momenta}
     dangling = sorted(str(s_) for s_ in kin_free if s_ not in new.parameter_defaults and s_ not in new.kinematic_variables)
     grd("closure: kinematic-variable definitions use parameters / kinematic variables / momenta only", not dangling, symbols=dangling)
     # ---- solver obligations
@@ -157,7 +181,12 @@ def run(config, tier, seed):
     tr_old = Translator(ctx, symbol_values=vals_old, opaque_classes=OPAQUE, opaque_real=True, uf_classes=UF_CLASSES, use_assumptions=False)
     obs, pairs = [], {}
 
+    # opaque array nodes are unknowns named by their structure: sigma acts on the momentum symbols inside them
+    mom_map = {s_: sp.Symbol(sigma[s_.name], **s_.assumptions0) for s_ in all_old if re.fullmatch(r"p\d+", getattr(s_, "name", "")) and s_.name in sigma}
+
     def add(label, e_new, e_old):
+        if mom_map:
+            e_old = e_old.xreplace(mom_map)
         obs.extend(identity_obligations(label, tr_new(e_new), tr_old(e_old)))
         pairs[label] = (e_new, e_old)
 
@@ -212,7 +241,7 @@ def run(config, tier, seed):
 def configs(tier):
     out = []
     maps = ["injective(2 params)", "merge(two coefficients)", "chain a->b with b present", "swap", "kinematic variable", "stable mass parameter",
-            "unknown name", "empty", "two successive"]  # fmt: skip
+            "four-momentum symbols", "unknown name", "empty", "two successive"]  # fmt: skip
     for model in ("bw", "stable", "dpd"):
         for mp in maps:
             if tier == "quick" and model == "bw" and mp in ("unknown name", "empty", "two successive"):
@@ -231,7 +260,7 @@ def main():
     chk.finish(
         functions=[h.HelicityModel.rename_symbols, h.HelicityModel.expression.fget, h.ParameterValues],
         bounds={"models": ["canonical J/psi->gamma f0,f2 with BW", "helicity, stable final-state ids + scalar initial mass", "DPD-aligned J/psi->K0 Sigma+ p~ with stable ids"],
-                "rename maps": "9 families, <= 2 successive renames"},  # fmt: skip
+                "rename maps": "10 families, <= 2 successive renames"},  # fmt: skip
         assumptions=["array-valued kinematic expressions (Phi, Theta, InvariantMass, boosts ...) are opaque: one unknown per structurally distinct node",
                      "coefficients are complex solver variables, everything else real"],  # fmt: skip
         outside=["longer rename histories", "models not listed", "merging renames on the DPD-aligned model (undecided within the time limit)"],
